@@ -1,5 +1,5 @@
 (* ClientLTSLive.v — C13: recovery is INEVITABLE when the environment is quiet.
-   Builds on ClientLTSProofs.v (all four repairs on: [trans k true true true true]).
+   Builds on ClientLTSProofs.v (all four repairs on: [trans k true true true true true]).
 
    A. [quiet a]: the labels that are steps of the client's own machinery with a gateway that accepts:
         connect():   AConnEntry, AImplOpened, AImplOk (any status-callback outcome), ABackoffDone (the retry timer),
@@ -165,12 +165,12 @@ Ltac rd b qq :=
 
 Section Live.
 Variable k : kind.
-Notation T := (trans k true true true true).
-Notation R := (run k true true true true).
-Notation reach := (reachable k true true true true).
+Notation T := (trans k true true true true true).
+Notation R := (run k true true true true true).
+Notation reach := (reachable k true true true true true).
 
 (* ---------------- B. termination ---------------- *)
-Lemma lmu_step x a y : qstep x a = true -> trans k true true true true x a = Some y -> (lmu y < lmu x)%nat.
+Lemma lmu_step x a y : qstep x a = true -> trans k true true true true true x a = Some y -> (lmu y < lmu x)%nat.
 Proof.
   unfold qstep, realistic, lmu, can_fault, dirty. intros Q. destruct x; cbn in *. destruct a; try discriminate Q.
   all: step_cases ltac:(mu_fin).
@@ -182,7 +182,7 @@ Definition rx_reading (r : rxs) : bool := match r with RCreated | RRun | RWait |
 Definition NA (x : g) : Prop :=
   (rx x = RRun -> rx_creq x = false) /\ (cons x = CRun -> cons_creq x = false /\ 0 < q x) /\ 0 <= buf x /\ 0 <= q x.
 
-Lemma NA_step x a y : NA x -> trans k true true true true x a = Some y -> NA y.
+Lemma NA_step x a y : NA x -> trans k true true true true true x a = Some y -> NA y.
 Proof.
   unfold NA. intros (A1 & A2 & A3 & A4). destruct x; cbn in *. destruct a.
   all: step_cases ltac:(
@@ -204,10 +204,16 @@ Definition NB (x : g) : Prop :=
   (trace x = [] -> rx x = RNone /\ st x = Disc /\ send_cb x = 0%nat /\ hold_late (hold x) = false) /\
   (st x = Conn -> hold x = HNone -> rx_reading (rx x) = true).
 
-Lemma NB_step x a y : hold_lock_ok x -> closed_iff_closing x -> NB x -> trans k true true true true x a = Some y -> NB y.
+(* a further close() call is only asleep after the first one has started (part of K2, ClientLTSProofs.v) *)
+Definition CQ (x : g) : Prop := (0 < c2_rx x + c2_cons x)%nat -> closing x <> KNone.
+
+Lemma NB_step x a y : hold_lock_ok x -> closed_iff_closing x -> CQ x -> NB x ->
+  trans k true true true true true x a = Some y -> NB y.
 Proof.
-  unfold hold_lock_ok, closed_iff_closing, NB, rx_reading, hold_late. intros HL C (B1 & B2 & B3). destruct x; cbn in *. destruct a.
-  all: step_cases ltac:(try solve [intuition (try congruence)]; destr_vars; try solve [intuition (try congruence)]).
+  unfold hold_lock_ok, closed_iff_closing, CQ, NB, rx_reading, hold_late. intros HL C Cq (B1 & B2 & B3).
+  destruct x; cbn in *. destruct a.
+  all: step_cases ltac:(try (assert (closing <> KNone) by (apply Cq; lia));
+                        try solve [intuition (try congruence)]; destr_vars; try solve [intuition (try congruence)]).
 Qed.
 
 (* ---------------- C. no deadlock short of recovery ---------------- *)
@@ -264,16 +270,21 @@ Definition stuck_quiet (x : g) : Prop := forall a, qstep x a = true -> T x a = N
 
 Lemma RNA x : reach x -> NA x.
 Proof.
-  apply (reachable_invariant k true true true true NA).
+  apply (reachable_invariant k true true true true true NA).
   - unfold NA; simpl; repeat split; intros; try discriminate; lia.
   - intros y a z A H. eapply NA_step; eauto.
 Qed.
 
 Lemma RNB x : reach x -> I0 x /\ NB x.
 Proof.
-  apply (reachable_invariant k true true true true (fun x => I0 x /\ NB x)).
-  - split; [apply Inv_init|]. unfold NB; simpl. repeat split; intros; auto; try discriminate; try congruence.
-  - intros y a z [A B] H. split; [eapply I0_step; eauto|]. destruct A as (A1 & _ & A3). eapply NB_step; eauto.
+  intros H.
+  assert (I0 x /\ K2 x /\ NB x) as (A & _ & B); [|split; assumption].
+  revert x H. apply (reachable_invariant k true true true true true (fun x => I0 x /\ K2 x /\ NB x)).
+  - split; [apply Inv_init|]. split; [unfold K2; simpl; lia|].
+    unfold NB; simpl. repeat split; intros; auto; try discriminate; try congruence.
+  - intros y a z (A & Kk & B) H. pose proof A as (A1 & _ & A3).
+    split; [eapply I0_step; eauto|]. split; [eapply K2_step; eauto|].
+    eapply NB_step; eauto. unfold CQ. intros Hp. apply (Kk Hp).
 Qed.
 
 Theorem no_deadlock x : reach x -> st x <> Closed -> stuck_quiet x -> rest_connected x \/ rest_idle x.
@@ -349,7 +360,7 @@ Proof.
   - destruct (qstep x a) eqn:Qa; [|discriminate]. destruct (T x a) as [z|] eqn:E; [|discriminate].
     pose proof (RNB x H) as ((A0 & _) & B).
     destruct (asked_step x a z A0 B C G Qa E) as [C' G'].
-    apply (IH z y); auto. exact (reachable_step _ _ _ _ _ _ _ _ H E).
+    apply (IH z y); auto. exact (reachable_step _ _ _ _ _ _ _ _ _ H E).
 Qed.
 
 (* D. every maximal quiet run from a non-CLOSED state in which a connect() was asked for is finite (at most [lmu x] steps) and
@@ -376,21 +387,21 @@ End Live.
 (* ---------------- the label-only notion of "quiet" is too weak for the MODEL (over-approximations, see the header) ---------------- *)
 Definition rwait_state : list act := [AConsStart; AUserConnect; AConnEntry true; AImplOk CbRet; ARxStart; ARxIter RxSusp].
 
-Lemma run_repeat_fixpoint k fe fc fl fd s a : trans k fe fc fl fd s a = Some s ->
-  forall n, run k fe fc fl fd s (repeat a n) = Some s.
+Lemma run_repeat_fixpoint k fe fc fl fd fg s a : trans k fe fc fl fd fg s a = Some s ->
+  forall n, run k fe fc fl fd fg s (repeat a n) = Some s.
 Proof. intros E. induction n as [|n IH]; simpl; [reflexivity|]. now rewrite E. Qed.
 
 Example quiet_only_refuted_spurious_wakeup : exists s,
-  run KEByte true true true true init rwait_state = Some s /\ quiet (ARxIter RxSusp) = true /\
-  forall n, run KEByte true true true true s (repeat (ARxIter RxSusp) n) = Some s.
+  run KEByte true true true true true init rwait_state = Some s /\ quiet (ARxIter RxSusp) = true /\
+  forall n, run KEByte true true true true true s (repeat (ARxIter RxSusp) n) = Some s.
 Proof.
   eexists. split; [vm_compute; reflexivity|]. split; [reflexivity|].
   apply run_repeat_fixpoint. vm_compute. reflexivity.
 Qed.
 
 Example quiet_only_refuted_unbounded_queue : exists s,
-  run KEByte true true true true init (rwait_state ++ [AEnvFeed 13]) = Some s /\
-  forall N, 0 <= N -> exists y, trans KEByte true true true true s (ARxIter (RxRet 0 N)) = Some y /\ q y = N.
+  run KEByte true true true true true init (rwait_state ++ [AEnvFeed 13]) = Some s /\
+  forall N, 0 <= N -> exists y, trans KEByte true true true true true s (ARxIter (RxRet 0 N)) = Some y /\ q y = N.
 Proof.
   eexists. split; [vm_compute; reflexivity|]. intros N HN.
   unfold trans, allowed; unf_helpers; unfold ret_ok; cbn. zb. cbn. eexists. split; reflexivity.
@@ -402,7 +413,7 @@ Definition quiet_recovery : list act :=
   [ARxIter (RxRet 7 1); ARxIter (RxRaise 0 CbRet); AConsGot RcRet; AConnEntry true; AImplOk CbRet; ARxStart; ARxIter RxSusp].
 
 Example recovery_inevitable_example : exists x y,
-  run KEByte true true true true init post_fault = Some x /\ st x = Conn /\ eof x = true /\
+  run KEByte true true true true true init post_fault = Some x /\ st x = Conn /\ eof x = true /\
   qrun KEByte x quiet_recovery = Some y /\ stuck_quiet KEByte y /\ rest_connected KEByte y /\
   trace y = [Conn; Disc; Conn] /\ (length quiet_recovery <= lmu x)%nat.
 Proof.
@@ -410,7 +421,7 @@ Proof.
   split; [vm_compute; reflexivity|].
   assert (rest_connected KEByte
             (match qrun KEByte
-               (match run KEByte true true true true init post_fault with Some x => x | None => init end) quiet_recovery
+               (match run KEByte true true true true true init post_fault with Some x => x | None => init end) quiet_recovery
              with Some y => y | None => init end)) as RC.
   { vm_compute. repeat split; reflexivity. }
   split; [apply rest_connected_stuck; exact RC|]. split; [exact RC|]. split; [reflexivity|]. vm_compute. lia.
